@@ -69,7 +69,7 @@ def nightly_sysroot():
 
 
 def _run_driver(repo, cfg, outdir, log):
-    target = os.path.join(CACHE, 'target')
+    target = os.environ.get('ZL_TARGET') or os.path.join(CACHE, 'target')
     os.makedirs(target, exist_ok=True)
     fp = os.path.join(target, 'debug', '.fingerprint')
     if os.path.isdir(fp):
@@ -98,7 +98,7 @@ def _run_driver(repo, cfg, outdir, log):
         raise CheckError('cargo check (%s) failed on the current tree:\n%s' % (cfg, tail))
 
 
-def _prune(keep=8):
+def _prune(keep=120):
     base = os.path.join(CACHE, 'facts')
     if not os.path.isdir(base):
         return
@@ -116,7 +116,8 @@ def ensure(cfgs=('full',), repo=None):
     os.makedirs(CACHE, exist_ok=True)
     hsh, nfiles = repo_hash(repo)
     base = os.path.join(CACHE, 'facts', hsh)
-    with open(os.path.join(CACHE, 'lock'), 'w') as lk:
+    lockname = 'lock' + ('-' + hashlib.sha1(os.environ['ZL_TARGET'].encode()).hexdigest()[:8] if os.environ.get('ZL_TARGET') else '')
+    with open(os.path.join(CACHE, lockname), 'w') as lk:
         fcntl.flock(lk, fcntl.LOCK_EX)
         os.makedirs(base, exist_ok=True)
         log = os.path.join(base, 'build.log')
